@@ -3,3 +3,4 @@ import PsVerif.Generated.Ranking
 #print axioms PsVerif.Gen.selection_predict_0
 #print axioms PsVerif.Gen.selection_predict_1
 #print axioms PsVerif.Gen.selection_predict_2
+#print axioms PsVerif.Gen.selection_get_selected_sensors_0
